@@ -32,6 +32,7 @@ REQUIRED = {
         'recession-curves-compared-with-truth': 30,
         'rise-curves-compared-with-truth': 30,
         'workflows-with-gaps': 5,
+        'workflows-with-a-finer-logger-and-readings-lost-at-peaks': 5,
         'workflows-via-subprocess': 1,
     }
     for tier in ('quick', 'thorough')
@@ -202,6 +203,11 @@ def run(ctx):
     nsub = ctx.share(s['sub'])
     for i in range(n):
         case = gen_planted.gen(rng, gaps=[0, 0, 1, 2][i % 4])
+        if i % 4 == 1:
+            # logged at half the rainfall step, with readings lost at peaks
+            case, dropped = gen_planted.with_fine_logger(case, rng)
+            if dropped:
+                ctx.rec.hit('workflows-with-a-finer-logger-and-readings-lost-at-peaks')
         check_case(ctx, case, 'subprocess' if i < nsub else 'cli', i)
 
 
